@@ -1,6 +1,7 @@
 import MidnightZK.Model.Common
 import MidnightZK.Model.C09.Planner
 import MidnightZK.Model.C09.Tables
+import MidnightZK.Model.C09.Emitter
 import Std.Data.HashMap
 /-! Line-protocol handler of property C09.
 
@@ -10,7 +11,9 @@ Requests:
   layouter's shape pass; answer: the start row of every region (`_` for a region without cells).
 * `layout K=… U=… M=… ; <item> ; <item> …` — the region-relative call log of one synthesis;
   answer: region starts, digest of the absolute call sequence, number of calls, cost model
-  (`rows`, `trows`, `irows`, `k`) and digest of the keygen view (fixed cells and selectors).
+  (`rows`, `trows`, `irows`, `k`), digest of the keygen view (fixed cells and selectors) and
+  digest `C` of the copy constraints as a canonical set of (cell, cell) pairs (`copyPairs`,
+  sorted, duplicates removed).
 * `p2r <max_bit_len> <queried tags>` — answer: number of rows and digest of the `(tag, value)`
   rows of the range table.
 * `tables <arch flags> <used flags>` (six 0/1 flags each: sha256 sha512 base64 automaton
@@ -174,6 +177,21 @@ def viewDigest (usable : Nat) (view : List Abs) : Nat :=
   let h := tok h 0
   sa.foldl (fun h x => toks h [x.1, x.2]) h
 
+def listLt : List Nat → List Nat → Bool
+  | [], [] => false
+  | [], _ :: _ => true
+  | _ :: _, [] => false
+  | a :: as, b :: bs => a < b || (a == b && listLt as bs)
+
+/-- Digest of the copy constraints as a set: canonical pairs (`copyPairs`), sorted
+lexicographically, duplicates removed. -/
+def copyDigest (cs : List Abs) : Nat :=
+  let ps := (copyPairs cs).map (fun p => [p.1.1.kind, p.1.1.idx, p.1.2, p.2.1.kind, p.2.1.idx, p.2.2])
+  let arr := ps.toArray.qsort listLt
+  let (h, _) := arr.foldl (fun (acc : Nat × Option (List Nat)) p =>
+    if acc.2 == some p then acc else (toks acc.1 p, some p)) (0, none)
+  h
+
 def answerLayout (hdr : String) (items : List String) : String :=
   match parseHdr? hdr, items.mapM parseItem? with
   | some h, some its =>
@@ -189,7 +207,7 @@ def answerLayout (hdr : String) (items : List String) : String :=
     let c := costOf all
     let k := circuitK h.u h.m c
     let V := viewDigest (2 ^ k - h.u) (keygenView all)
-    s!"starts={stsS} H={H} n={all.length} rows={c.1} trows={c.2.1} irows={c.2.2} k={k} V={V}"
+    s!"starts={stsS} H={H} n={all.length} rows={c.1} trows={c.2.1} irows={c.2.2} k={k} V={V} C={copyDigest all}"
   | _, _ => "bad-op"
 
 def answerCache (cs : List String) : String :=
